@@ -128,6 +128,21 @@ impl<'r> PlanGen<'r> {
             return Node::Scalar(self.scalar());
         }
         self.budget -= 1;
+        if self.rng.chance(1, 25) {
+            // the table form of an externally tagged tuple variant: { Variant = { 0 = .., 1 = .. } }
+            let n = 1 + self.rng.below(3);
+            let inner_ctx = if ctx == 0 { 0 } else { 2 };
+            let payload: Vec<(String, Node)> = (0..n).map(|i| (i.to_string(), self.node(depth + 2, inner_ctx))).collect();
+            let lay = |c: u32, rng: &mut Rng| if c == 0 { if rng.chance(1, 3) { TabLayout::Dotted } else { TabLayout::Header } } else { TabLayout::Inline };
+            let l_in = lay(inner_ctx, self.rng);
+            let l_out = lay(inner_ctx, self.rng);
+            // a dotted table cannot contain header tables
+            let has_sections = payload.iter().any(|(_, x)| matches!(x, Node::Table(_, TabLayout::Header) | Node::Aot(_)));
+            let l_in = if has_sections && l_in == TabLayout::Dotted { TabLayout::Header } else { l_in };
+            let l_out = if l_in == TabLayout::Header && l_out == TabLayout::Dotted { TabLayout::Header } else { l_out };
+            let name = self.rng.pick(&["Tuple", "V", "pt"]).to_string();
+            return Node::Table(vec![(name, Node::Table(payload, l_in))], l_out);
+        }
         match self.rng.below(10) {
             0 | 1 | 2 => {
                 // array of values
@@ -154,10 +169,12 @@ impl<'r> PlanGen<'r> {
     }
     fn entries(&mut self, depth: u32, ctx: u32) -> Vec<(String, Node)> {
         let n = self.rng.below(5);
+        // positional keys `0`, `1`, ..: the table form of a tuple variant's payload
+        let positional = n >= 1 && depth >= 1 && self.rng.chance(1, 10);
         let mut kvs: Vec<(String, Node)> = Vec::new();
-        for _ in 0..n {
+        for i in 0..n {
             let used: Vec<String> = kvs.iter().map(|(k, _)| k.clone()).collect();
-            let k = self.key(&used);
+            let k = if positional { i.to_string() } else { self.key(&used) };
             let v = self.node(depth, ctx);
             kvs.push((k, v));
         }
@@ -204,6 +221,9 @@ struct Render {
     f: u32,
     spans: Vec<(Vec<PathSeg>, usize, usize, bool)>,
     headers: Vec<(Vec<PathSeg>, usize)>,
+    header_ends: Vec<usize>,
+    /// index into `headers` of the header whose key/value lines are being written (None: root table)
+    cur_hdr: Option<usize>,
 }
 
 fn is_bare(k: &str) -> bool {
@@ -612,6 +632,8 @@ impl Render {
         }
         self.opt_ws();
         self.out.push_str(if aot { "]]" } else { "]" });
+        self.header_ends.push(self.out.len());
+        self.cur_hdr = Some(self.header_ends.len() - 1);
         self.eol();
     }
     /// body of a header-able table: first its key/value lines (including dotted sub-tables), then sub-sections
@@ -644,6 +666,9 @@ impl Render {
             self.out.push('=');
             self.ws();
             self.value(&v, &mut p);
+            if let Some(i) = self.cur_hdr {
+                self.header_ends[i] = self.out.len();
+            }
             self.eol();
         }
         if self.on(F_REORDER) && !in_aot {
@@ -740,7 +765,7 @@ fn flatten_inline(kvs: &[(String, Node)], prefix: &mut Vec<String>, path: &mut V
 }
 
 pub fn render(plan: &DocPlan) -> DocSpec {
-    let mut r = Render { out: String::new(), t: Rng::new(plan.trivia_seed), f: plan.features, spans: Vec::new(), headers: Vec::new() };
+    let mut r = Render { out: String::new(), t: Rng::new(plan.trivia_seed), f: plan.features, spans: Vec::new(), headers: Vec::new(), header_ends: Vec::new(), cur_hdr: None };
     if r.on(F_BOM) {
         r.out.push('\u{feff}');
     }
@@ -752,7 +777,7 @@ pub fn render(plan: &DocPlan) -> DocSpec {
             r.out.pop();
         }
     }
-    DocSpec { text: r.out, tree: Some(plan.tree()), spans: r.spans, source: "docgen".into(), plan: Some(plan.clone()), headers: r.headers }
+    DocSpec { text: r.out, tree: Some(plan.tree()), spans: r.spans, source: "docgen".into(), plan: Some(plan.clone()), headers: r.headers, header_ends: r.header_ends }
 }
 
 pub fn gen_doc(rng: &mut Rng) -> (DocSpec, Tree) {
@@ -760,7 +785,7 @@ pub fn gen_doc(rng: &mut Rng) -> (DocSpec, Tree) {
         let docs = corpus();
         let (name, text) = &docs[rng.below(docs.len())];
         let tree = toml_edit::ImDocument::parse(text.clone()).ok().and_then(|d| Tree::from_item(d.as_item())).unwrap_or(Tree::Tab(vec![]));
-        return (DocSpec { text: text.clone(), tree: None, spans: vec![], source: format!("toml-test:{name}"), plan: None, headers: vec![] }, tree);
+        return (DocSpec { text: text.clone(), tree: None, spans: vec![], source: format!("toml-test:{name}"), plan: None, headers: vec![], header_ends: vec![] }, tree);
     }
     let plan = gen_plan(rng);
     let doc = render(&plan);
@@ -880,12 +905,13 @@ fn infer_inner(rng: &mut Rng, tree: &Tree, cfg: &InferCfg, depth: u32, root: boo
         }
         Tree::Tab(kvs) => {
             // single-key table as an externally tagged enum
-            if kvs.len() == 1 && !root && rng.chance(1, 4) && !crate::seam::is_private_key(&kvs[0].0) {
+            let positional_payload = kvs.len() == 1 && matches!(&kvs[0].1, Tree::Tab(sub) if !sub.is_empty() && sub.iter().enumerate().all(|(i, (k, _))| *k == i.to_string()));
+            if kvs.len() == 1 && !root && (rng.chance(1, 4) || (positional_payload && rng.chance(1, 2))) && !crate::seam::is_private_key(&kvs[0].0) {
                 let (k, x) = &kvs[0];
                 let vt = match x {
                     Tree::Arr(xs) if xs.len() >= 2 && rng.chance(1, 2) => VarTy::Tuple(xs.iter().map(|e| infer(rng, e, cfg, depth + 1, false)).collect()),
                     // a tuple variant read from a *table* (positional keys `0`, `1`, ... — or a mismatch)
-                    Tree::Tab(sub) if !sub.is_empty() && rng.chance(1, 5) => VarTy::Tuple(sub.iter().map(|(_, e)| infer(rng, e, cfg, depth + 1, false)).collect()),
+                    Tree::Tab(sub) if !sub.is_empty() && (rng.chance(1, 5) || (sub.iter().enumerate().all(|(i, (k, _))| *k == i.to_string()) && rng.chance(2, 3))) => VarTy::Tuple(sub.iter().map(|(_, e)| infer(rng, e, cfg, depth + 1, false)).collect()),
                     Tree::Tab(sub) if rng.chance(1, 2) => VarTy::Struct(sub.iter().map(|(f, e)| (f.clone(), infer(rng, e, cfg, depth + 1, false))).collect()),
                     other => VarTy::Newtype(Box::new(infer(rng, other, cfg, depth + 1, false))),
                 };
